@@ -21,11 +21,11 @@ def run(pid, tier, seed):
     q = tier == "quick"
     J = [
         ("all", {"Depth": 3, "Ops": tla_set(OPENERS + MEMBERS + UNITS), "Levels": tla_set([0, 2]),
-                 "Targets": '"some"' if q else '"all"', "Record": "TRUE"}),
-        ("nesting", {"Depth": 4 if q else 5, "Ops": tla_set(["make_class", "make_block", "make_mapping", "new_handler",
+                 "Targets": '"all"', "Record": "TRUE"}),
+        ("nesting", {"Depth": 5, "Ops": tla_set(["make_class", "make_block", "make_mapping", "new_handler",
                                                              "make_subregion", "add_param"]),
                      "Levels": tla_set([1]), "Targets": '"some"', "Record": "TRUE"}),
-        ("members", {"Depth": 4 if q else 5, "Ops": tla_set(["make_enum", "make_class", "make_lambda", "make_requires"] + MEMBERS),
+        ("members", {"Depth": 5, "Ops": tla_set(["make_enum", "make_class", "make_lambda", "make_requires"] + MEMBERS),
                      "Levels": tla_set([3]), "Targets": '"some"', "Record": "TRUE"}),
     ]
     tdir = vlib.trace_dir()
